@@ -19,6 +19,7 @@ def main(tier, seed, replay):
         k.validate_profile("rates", 100)
         k.validate_profile("split", 80)
         k.validate_profile("rel", 80)
+        k.validate_profile("sess", 60)      # a confirmed tick must not come from an earlier session
         k.replay_behaviours("EXH_Rate", mc_consts(comps=("A", "P"), kinds=("spawn", "mutate", "remove"), ops=4, ticks=3, idle=0, cframes=0), 0, invariants=inv)
     else:
         k.model_check("MC_Mut", mc_consts(ops=4, ticks=3, idle=2, cframes=3), inv, props, timeout=3000)
@@ -33,6 +34,7 @@ def main(tier, seed, replay):
         k.validate_profile("vis_black", 1000)
         k.validate_profile("rel", 1500)
         k.validate_profile("rel_split", 1000)
+        k.validate_profile("sess", 1500)
         k.replay_behaviours("EXH_Rate", mc_consts(comps=("A", "P", "O"), kinds=("spawn", "mutate", "remove", "insert"), ops=4, ticks=3, idle=0, cframes=0), 0, invariants=inv, timeout=3000)
         k.replay_behaviours("EXH_Mut_c1", mc_consts(kinds=("spawn", "insert", "mutate", "remove"), ops=3, ticks=2, idle=1, cframes=1), 0, invariants=inv, timeout=3000)
     k.selftest(tr)
